@@ -32,6 +32,8 @@ pub struct ChanSpec {
     pub creator: usize,
     pub label: String,
     pub protocol: String,
+    /// > 0: an in-band channel that its creator opens at this virtual time instead of before the association starts
+    pub late_ms: u64,
 }
 impl ChanSpec {
     pub fn mode(&self) -> Mode {
@@ -75,6 +77,7 @@ pub fn chan_specs(plan: &Plan) -> Vec<ChanSpec> {
             creator,
             label: format!("chan-{i}-{code}"),
             protocol: if i % 2 == 0 { String::new() } else { format!("proto{i}") },
+            late_ms: if inband { plan.knob(&format!("late{i}"), 0).max(0) as u64 } else { 0 },
         });
     }
     out
@@ -567,6 +570,7 @@ pub async fn run(ctx: &Ctx) {
     let mut eps = [&mut ea, &mut eb];
     for (side, ep) in eps.iter_mut().enumerate() {
         let dcs = Arc::new(parking_lot::Mutex::new(Vec::new()));
+        let mut late: Vec<ChanSpec> = Vec::new();
         let mut chans = HashMap::new();
         let mut open_rx = HashMap::new();
         let mut open_tx: HashMap<u16, watch::Sender<bool>> = HashMap::new();
@@ -576,6 +580,10 @@ pub async fn run(ctx: &Ctx) {
             open_rx.insert(spec.id, rx);
             if spec.inband && spec.creator != side {
                 continue; // will arrive through DCEP
+            }
+            if spec.inband && spec.late_ms > 0 {
+                late.push(spec.clone()); // created by the application while the association is in use
+                continue;
             }
             let dc = Arc::new(DataChannel::new(
                 spec.id,
@@ -593,6 +601,7 @@ pub async fn run(ctx: &Ctx) {
             chans.insert(spec.id, dc);
         }
         let (ndc_tx, mut ndc_rx) = mpsc::unbounded_channel::<Arc<DataChannel>>();
+        let dcs_list = dcs.clone();
         let (sctp, runner) = SctpTransport::new(ep.dtls.clone(), ep.incoming.take().unwrap(), dcs, 5000, 5000, Some(ndc_tx), ep.is_client, &cfg);
         ep.tasks.push(tokio::spawn(vh::wrap_task(runner)));
         let open_tx = Arc::new(open_tx);
@@ -623,6 +632,45 @@ pub async fn run(ctx: &Ctx) {
         };
         for dc in chans.values() {
             aux_tasks.push(spawn_recv(ctx, dc.clone()));
+        }
+        // channels the application opens in-band later, exactly as PeerConnection::create_data_channel does on a
+        // live association: register the channel, then send DCEP OPEN
+        for spec in late {
+            let sctp2 = sctp.clone();
+            let list = dcs_list.clone();
+            let c = CtxLite { sh: ctx.sh.clone() };
+            let st2 = st.clone();
+            let open_tx2 = open_tx.clone();
+            let keep_late: Arc<Mutex<Vec<Arc<DataChannel>>>> = Arc::new(Mutex::new(Vec::new()));
+            aux_tasks.push(tokio::spawn(vh::wrap_task(async move {
+                let t0 = c.sh.lock().unwrap().t0;
+                tokio::time::sleep_until(t0 + Duration::from_millis(spec.late_ms)).await;
+                let dc = Arc::new(DataChannel::new(
+                    spec.id,
+                    DataChannelConfig { label: spec.label.clone(), protocol: spec.protocol.clone(), ordered: spec.ordered, max_retransmits: spec.max_retransmits, max_packet_life_time: spec.max_life, max_payload_size: None, negotiated: None },
+                ));
+                list.lock().push(Arc::downgrade(&dc));
+                keep_late.lock().unwrap().push(dc.clone());
+                c.ev(&format!("api {} open in-band ch{}", if side == 0 { "A" } else { "B" }, spec.id), "");
+                let dc2 = dc.clone();
+                let rd = tokio::spawn(vh::wrap_task(async move {
+                    loop {
+                        let ev = dc2.recv().await;
+                        let end = ev.is_none();
+                        if let Some(DataChannelEvent::Open) = &ev {
+                            if let Some(t) = open_tx2.get(&dc2.id) {
+                                let _ = t.send(true);
+                            }
+                        }
+                        on_event_lite(&CtxLite { sh: c.sh.clone() }, &st2, side, dc2.id, ev);
+                        if end {
+                            break;
+                        }
+                    }
+                }));
+                let _ = sctp2.send_dcep_open(&dc).await;
+                let _ = rd.await;
+            })));
         }
         // in-band arrivals
         {
